@@ -137,6 +137,41 @@ theorem enc_total (e0 : Enc) (h0 : e0.Inv) (vs : List Value) (hvs : ∀ v ∈ vs
   let ⟨e, he, hi, _⟩ := Enc.seq_ext e0 h0 vs hvs
   ⟨e, he, hi⟩
 
+/-- **lists with any element codec.** If the element encoder appends `spec a` and the element decoder
+    reads `spec a` back (for the items of the list), then `encode_list_with` / `decode_list_with`
+    round-trip the list at any bit offset, in front of any following bits. -/
+theorem list_roundtrip_generic {α : Type} (f : Enc → α → Option Enc) (g : Dec → Res α) (spec : α → List Bool)
+    (items : List α)
+    (hf : ∀ a ∈ items, ∀ e : Enc, e.Inv → ∃ e', f e a = some e' ∧ e'.Inv ∧ e'.written = e.written ++ spec a)
+    (hg : ∀ a ∈ items, ∀ (d : Dec) (rest : List Bool), d.used < 8 → d.rem = spec a ++ rest →
+      ∃ d', g d = .ok a d' ∧ d'.buf = d.buf ∧ d'.used < 8 ∧ d'.cursor = d.cursor + (spec a).length)
+    (e : Enc) (he : e.Inv) :
+    ∃ e', Enc.list f e items = some e' ∧ e'.Inv ∧ e'.written = e.written ++ listBits spec items ∧
+      ∀ (d : Dec) (rest : List Bool), d.used < 8 → d.rem = listBits spec items ++ rest →
+        ∃ d', Dec.list g d = .ok items d' ∧ d'.buf = d.buf ∧ d'.used < 8 ∧
+          d'.cursor = d.cursor + (listBits spec items).length := by
+  obtain ⟨e', h1, h2, h3⟩ := Enc.list_ext f spec items hf e he
+  exact ⟨e', h1, h2, h3, fun d rest hu hr => Dec.list_reads g spec items hg d rest hu hr⟩
+
+/-- **wire format.** The buffer produced for `vs` is, bit for bit, the concatenation of the specified
+    encodings followed by the filler — independent of `used_bits` / `current_byte` bookkeeping. -/
+theorem enc_wire_format (vs : List Value) (hvs : ∀ v ∈ vs, v.WF) :
+    ∃ e, Enc.new.seq vs = .ok e ∧
+      bitsOf e.filler.buf = specSeq 0 vs ++ fillerBits ((specSeq 0 vs).length % 8) := by
+  obtain ⟨e, he, hinv, hw⟩ := Enc.seq_ext Enc.new Enc.inv_new vs hvs
+  obtain ⟨⟨_, hfw⟩, hfu, _⟩ := Enc.filler_ext e hinv
+  refine ⟨e, he, ?_⟩
+  have h0 : Enc.new.written = [] := rfl
+  have : e.filler.written = bitsOf e.filler.buf := by simp [Enc.written, hfu]
+  rw [← this, hfw, hw, h0]
+  simp only [List.nil_append, List.length_nil]
+  have hl := Enc.written_length e hinv
+  rw [hw, h0] at hl
+  simp only [List.nil_append, List.length_nil] at hl
+  have := hinv.1
+  congr 2
+  omega
+
 /-! ## Non-vacuity -/
 
 /-- a 600-byte string (three blocks) starting at bit offset 5, followed by more values -/
